@@ -579,7 +579,7 @@ class Exec:
 def solve(script, timeout=60):
     """z3, cross-checked with cvc5.  Returns ('sat'|'unsat'|'inconclusive', detail)."""
     out = {}
-    for name, cmd in (("z3", ["z3", "-in", "-T:%d" % timeout]), ("cvc5", ["cvc5", "--lang", "smt2", "--tlimit=%d" % (timeout * 1000), "--produce-models"])):
+    for name, cmd in (("z3", ["z3", "-in", "-T:%d" % timeout]), ("cvc5", ["cvc5", "--lang", "smt2", "--tlimit=%d" % (timeout * 1000), "--produce-models", "--strings-exp"])):
         try:
             p = subprocess.run(cmd, input=script, stdout=subprocess.PIPE, stderr=subprocess.STDOUT, text=True, timeout=timeout + 10)
             txt = p.stdout
@@ -619,7 +619,7 @@ def solve_batch(smt, goals, timeout=120):
         body += ["(push 1)", "(assert %s)" % g, "(check-sat)", "(pop 1)"]
     script = "\n".join(head + body) + "\n"
     answers = {}
-    for name, cmd in (("z3", ["z3", "-in", "-T:%d" % timeout]), ("cvc5", ["cvc5", "--lang", "smt2", "--incremental", "--tlimit-per=%d" % (20 * 1000)])):
+    for name, cmd in (("z3", ["z3", "-in", "-T:%d" % timeout]), ("cvc5", ["cvc5", "--lang", "smt2", "--incremental", "--strings-exp", "--tlimit-per=%d" % (20 * 1000)])):
         try:
             p = subprocess.run(cmd, input=script, stdout=subprocess.PIPE, stderr=subprocess.STDOUT, text=True, timeout=timeout + 30)
             lines = [l.strip() for l in p.stdout.splitlines() if l.strip()]
